@@ -65,28 +65,40 @@ type Unit struct {
 func UnitFromProto(protoUnit *pb.PropellerUnit) (Unit, error) {
 	shards := make(ShardData, len(protoUnit.Shards.GetShards()))
 	for i, s := range protoUnit.Shards.GetShards() {
-		shards[i] = Shard(s.Data)
+		shards[i] = Shard(s.GetData())
 	}
 
-	// validate that all shard length is the same
+	// A unit comes from the network: validate what the rest of the code takes for granted
+	// instead of panicking on a malformed one.
 	// todo(rdr): What other validations should I do?
 	// todo(rdr): Should I do these validations here?
+	if len(shards) == 0 {
+		return Unit{}, errors.New("unit has no shards")
+	}
+	// validate that all shard length is the same
 	shardLen := len(shards[0])
-	for i := range shards[1:] {
-		if len(shards[i]) != shardLen {
+	for _, shard := range shards[1:] {
+		if len(shard) != shardLen {
 			return Unit{}, errors.New("unit has shards of different length")
 		}
 	}
 
+	var messageRoot MessageRoot
+	rootBytes := protoUnit.MerkleRoot.GetElements()
+	if len(rootBytes) != len(messageRoot) {
+		return Unit{}, errors.New("unit has a merkle root of the wrong length")
+	}
+	copy(messageRoot[:], rootBytes)
+
 	siblings := make([]merkle.Hash, len(protoUnit.MerkleProof.GetSiblings()))
 	for i, s := range protoUnit.MerkleProof.GetSiblings() {
-		copy(siblings[i][:], s.Elements)
+		copy(siblings[i][:], s.GetElements())
 	}
 
 	return Unit{
 		CommitteeID: committeeIDFromBytes(protoUnit.CommitteeId.GetElements()),
 		Publisher:   peer.ID(protoUnit.Publisher.GetId()),
-		MessageRoot: MessageRoot(protoUnit.MerkleRoot.GetElements()),
+		MessageRoot: messageRoot,
 		MerkleProof: merkle.Proof{Siblings: siblings},
 		Signature:   protoUnit.Signature,
 		ShardIndex:  ShardIndex(protoUnit.Index),
